@@ -57,7 +57,7 @@ func TestMain(m *testing.M) {
 // ---------------------------------------------------------------------------
 
 var setups = []string{"fresh", "parsed", "finished", "running", "running-deep", "running-mutex", "running-interrogated",
-	"susp-top", "susp-nested", "susp-alias", "err-top", "err-nested", "finished-stale", "stopped", "mixed"}
+	"susp-top", "susp-nested", "susp-alias", "susp-hostile", "err-top", "err-nested", "finished-stale", "stopped", "mixed"}
 
 func (s *session) setup(name string) *hx.Failure {
 	run := func(steps ...string) *hx.Failure {
@@ -126,6 +126,8 @@ func (s *session) setup(name string) *hx.Failure {
 		return run("break nest:5", "start nest")
 	case "susp-alias":
 		return run("break alias:7", "start alias")
+	case "susp-hostile":
+		return run("break hostile:10", "start hostile")
 	case "err-top":
 		return run("start err")
 	case "err-nested":
@@ -145,7 +147,7 @@ func (s *session) setup(name string) *hx.Failure {
 var setupLabel = map[string]string{
 	"fresh": "fresh", "parsed": "parsed", "finished": "finished", "running": "running",
 	"running-deep": "running-deep", "running-mutex": "running-mutex", "running-interrogated": "running-interrogated",
-	"susp-top": "susp-top", "susp-nested": "susp-nested", "susp-alias": "susp-nested", "err-top": "err-top", "err-nested": "err-nested",
+	"susp-top": "susp-top", "susp-nested": "susp-nested", "susp-alias": "susp-nested", "susp-hostile": "susp-top", "err-top": "err-top", "err-nested": "err-nested",
 	"finished-stale": "finished-stale", "stopped": "stopped", "mixed": "running+susp-nested",
 }
 
@@ -544,7 +546,7 @@ func TestExhaustive(t *testing.T) {
 	// inject / lockstate meet every kind of statement a thread can stop at
 	kindsW := []string{"stepin", "stepover", "stepout", "resume"}
 	probes := [][]string{{"describe", "$susp"}, {"extract", "$susp", "x", "y"}, {"inject", "$susp", "x", "1+1"},
-		{"lockstate"}, {"status"}, {"describe", "$run"}, {"break", "$src:$bp2"}}
+		{"lockstate"}, {"status"}, {"describe", "$run"}, {"break", "$src:$bp2"}, {"describe", "$susp", "x"}}
 	hx.Enumerate(t, "walk", func(yield func(Case) bool) {
 		for _, prog := range progNames {
 			for _, k := range kindsW {
